@@ -251,7 +251,6 @@ func runBinary(e *vh.Env, cfg *config.Config, tag string, wait time.Duration) (e
 	done := make(chan error, 1)
 	go func() { done <- cmd.Wait() }()
 	deadline := time.After(wait)
-	addr := fmt.Sprintf("127.0.0.1:%d", cfg.Server.Port)
 	for {
 		select {
 		case err := <-done:
@@ -270,9 +269,8 @@ func runBinary(e *vh.Env, cfg *config.Config, tag string, wait time.Duration) (e
 			return false, 0, accepted, string(b)
 		default:
 		}
-		if c, err := net.DialTimeout("tcp", addr, 100*time.Millisecond); err == nil {
+		if vh.PidListens(cmd.Process.Pid, cfg.Server.Port) {
 			accepted = true
-			c.Close()
 		}
 		time.Sleep(5 * time.Millisecond)
 	}
